@@ -37,6 +37,7 @@ type ident struct {
 
 // Names maps abstract names to concrete identities and back.
 type Names struct {
+	mu      sync.Mutex
 	seed    int64
 	byName  map[string]*ident
 	reverse map[string]string // concrete (lower-cased) -> abstract
@@ -47,6 +48,8 @@ func newNames(seed int64) *Names {
 }
 
 func (n *Names) get(name string) *ident {
+	n.mu.Lock()
+	defer n.mu.Unlock()
 	if id, ok := n.byName[name]; ok {
 		return id
 	}
@@ -100,6 +103,8 @@ func (n *Names) wallet(name string) string {
 
 // abs returns the abstract name of a concrete id / address (or "raw:<x>").
 func (n *Names) abs(concrete string) string {
+	n.mu.Lock()
+	defer n.mu.Unlock()
 	if a, ok := n.reverse[concrete]; ok {
 		return a
 	}
